@@ -11,3 +11,5 @@ open Femio.C17
 #print axioms C17_diag_shortcut_rows_counterexample
 #print axioms C17_flat_key_order
 #print axioms C17_flat_key_wrap_counterexample
+#print axioms C17_align_cast_exact
+#print axioms C17_align_cast_roundoff_counterexample
